@@ -509,6 +509,15 @@ func c05Solver(ctx *fw.Ctx, c fw.Case) fw.Outcome {
 			}
 			alt := fam.F(hin, h, rnd)
 			if alt != nil {
+				same := true
+				for i := range alt {
+					if new(big.Int).Mod(alt[i], bigR).Cmp(h[i]) != 0 {
+						same = false
+					}
+				}
+				if same {
+					return honestFn(m, hin, hout)
+				}
 				once = true
 				for i := range hout {
 					hout[i].Set(alt[i])
@@ -546,6 +555,15 @@ func (p matchPolicy) Substitute(ev *engine.HintEvent) ([]*big.Int, bool) {
 	outs := p.fam.F(ev.Inputs, ev.Honest, p.rnd)
 	if outs == nil {
 		return nil, false
+	}
+	differ := false
+	for i := range outs {
+		if new(big.Int).Mod(outs[i], bigR).Cmp(ev.Honest[i]) != 0 {
+			differ = true
+		}
+	}
+	if !differ {
+		return nil, false // the alternative coincides with the honest outputs (e.g. inverse of 1 modulo r)
 	}
 	*p.fired = true
 	return outs, true
